@@ -570,13 +570,13 @@ func (h *hostsRun) checkState(what string) {
 			return
 		}
 	}
-	checkTables(h.exec, what)
+	apiUserCheckTables(h.exec, what)
 	h.addState(simrt.HashBytes([]byte(strings.Join(ws, ";"))))
 }
 
 // checkTables is the structural invariant of C05, evaluated on the exported tables under
 // the session read lock.
-func checkTables(e *exec, what string) {
+func apiUserCheckTables(e *exec, what string) {
 	s := e.w.S
 	s.VerifRLock()
 	defer s.VerifRUnlock()
